@@ -7,9 +7,9 @@ Not decided: reward values (Jaccard, L1).
 """
 import ast
 
-from ..model import walk_shallow, call_name, is_self_attr, dotted_name, parent, ancestors, enclosing_function
+from ..model import walk_shallow, call_name, is_self_attr, dotted_name, parent, ancestors, enclosing_function, rename_copy
 from ..util import (has_call, find_calls, assigned_value, const_str, unparse, kw, arg_or_kw, enclosing_stmt,
-                    guards_of, call_tail, control_ancestors)
+                    guards_of, call_tail, control_ancestors, alpha)
 from .. import mutate as M
 
 EXPLANATION = ("Provenance and table rules over SupervisedSimulation: each row-type arm yields exactly one interaction per row, "
@@ -21,9 +21,54 @@ EXPLANATION = ("Provenance and table rules over SupervisedSimulation: each row-t
 SUP = "coba/environments/supervised.py"
 
 
+def _roles_read(fn):
+    """actual local name -> role name, resolved by what each local is bound to (robust to renaming)"""
+    from ..util import bound_names
+    m = {}
+    peek = [x for x in walk_shallow(fn) if isinstance(x, ast.Assign) and isinstance(x.targets[0], ast.Tuple) and len(x.targets[0].elts) == 2 and has_call(x.value, "peek_first")]
+    if peek:
+        m[unparse(peek[0].targets[0].elts[0])] = "first"
+        m[unparse(peek[0].targets[0].elts[1])] = "rows"
+    first = next((k for k, v in m.items() if v == "first"), "first")
+    rows = next((k for k, v in m.items() if v == "rows"), "rows")
+
+    def one(pred, role):
+        ns = bound_names(fn, pred)
+        if ns:
+            m[ns[0]] = role
+            return ns[0]
+        return role
+
+    frt = one(lambda v: isinstance(v, ast.IfExp) and f"hasattr({first}, 'label')" in unparse(v.test), "first_row_type")
+    one(lambda v: isinstance(v, ast.IfExp) and unparse(v.body) == f"{first}.label", "first_label")
+    one(lambda v: isinstance(v, ast.IfExp) and unparse(v.body) == f"{first}.tipe", "first_label_type")
+    one(lambda v: "self._label_type or" in unparse(v), "label_type")
+    one(lambda v: isinstance(v, ast.IfExp) and isinstance(v.body, ast.ListComp) and ".label for" in unparse(v.body), "lbls")
+    one(lambda v: isinstance(v, ast.Lambda) and "isinstance" in unparse(v) and "list" in unparse(v), "delist")
+    one(lambda v: unparse(v) in ("L1Reward", "HammingReward", "BinaryReward"), "reward")
+    one(lambda v: unparse(v) == "[]" or (isinstance(v, ast.Call) and call_name(v) == "sorted" and "set(" in unparse(v)), "actions")
+    for lp in walk_shallow(fn):
+        if isinstance(lp, ast.For) and unparse(lp.iter) == rows and isinstance(lp.target, ast.Name):
+            m[lp.target.id] = "row"
+    return m
+
+
+def _roles_init(fn):
+    from ..util import bound_names
+    m = {}
+    for role, pred in (("source", lambda v: unparse(v).startswith("args[0] if len(args) > 0")), ("label_col", lambda v: "'label_col'" in unparse(v)),
+                       ("take", lambda v: "'take'" in unparse(v)), ("label_type", lambda v: "'label_type'" in unparse(v))):
+        ns = bound_names(fn, pred)
+        if ns:
+            m[ns[0]] = role
+    return m
+
+
 def run(ctx):
     fn = ctx.fn(SUP, "SupervisedSimulation.read")
     init = ctx.fn(SUP, "SupervisedSimulation.__init__")
+    fn = rename_copy(fn, _roles_read(fn))
+    init = rename_copy(init, _roles_init(init))
     r1_r2(ctx, fn)
     r3_actions(ctx, fn)
     r4_table(ctx, fn)
@@ -80,12 +125,12 @@ def r3_actions(ctx, fn):
     ctx.rule("C14.R3", "for generic classification/multi-label data the action list is sorted(set(labels of ALL rows)): rows are materialised, not sliced")
     mat = [x for x in walk_shallow(fn) if isinstance(x, ast.Assign) and unparse(x.targets[0]) == "rows" and unparse(x.value) == "list(rows)"]
     lb = assigned_value(fn, "lbls")
-    ok = len(mat) == 1 and len(lb) == 1 and unparse(lb[0]) == "[r.label for r in rows] if first_row_type == 0 else [r[1] for r in rows]"
+    ok = len(mat) == 1 and len(lb) == 1 and alpha(lb[0]) == alpha("[r.label for r in rows] if first_row_type == 0 else [r[1] for r in rows]")
     ctx.ob("C14.R3", SUP, "SupervisedSimulation.read", mat[0] if mat else fn, "labels are collected from every row of the fully materialised data", ok,
            detail={"lbls": [unparse(v) for v in lb]}, stmt="labels of all rows")
     acts = [v for v in assigned_value(fn, "actions")]
-    forms = sorted(unparse(v) for v in acts)
-    want = sorted(["[]", "[Categorical(l, first_label.levels) for l in first_label.levels]", "sorted(set(list(chain(*lbls))))", "sorted(set(map(delist, lbls)))"])
+    forms = sorted(alpha(v) for v in acts)
+    want = sorted(alpha(w) for w in ["[]", "[Categorical(l, first_label.levels) for l in first_label.levels]", "sorted(set(list(chain(*lbls))))", "sorted(set(map(delist, lbls)))"])
     ctx.ob("C14.R3", SUP, "SupervisedSimulation.read", fn, "action list per label kind: [] (regression), all levels (categorical), sorted distinct labels (otherwise)",
            forms == want, detail={"actions": forms}, stmt="action list forms")
     for v in acts:
@@ -117,7 +162,8 @@ def r4_table(ctx, fn):
         else:
             by["c"] = v
     want = {"r": "L1Reward", "m": "HammingReward", "c-cat": "BinaryReward", "c": "lambda l: BinaryReward(delist(l))"}
-    ctx.ob("C14.R4", SUP, "SupervisedSimulation.read", fn, "each label type selects its documented reward class", by == want, detail={"table": by}, stmt="reward table")
+    by_a = {k: alpha(v) for k, v in by.items()}
+    ctx.ob("C14.R4", SUP, "SupervisedSimulation.read", fn, "each label type selects its documented reward class", by_a == {k: alpha(v) for k, v in want.items()}, detail={"table": by}, stmt="reward table")
     lt = [unparse(v) for v in assigned_value(fn, "label_type")]
     ok = "label_type.lower()" in lt and any("self._label_type or" in v for v in lt)
     ctx.ob("C14.R4", SUP, "SupervisedSimulation.read", fn, "an explicit label_type wins over inference and is case-normalised", ok, detail={"label_type": lt}, stmt="label_type resolution")
